@@ -11,11 +11,13 @@ import (
 	"os"
 	"path"
 	"strconv"
+	"strings"
 
 	"github.com/openGemini/openGemini/engine/immutable/colstore"
 	"github.com/openGemini/openGemini/engine/index/bloomfilter"
 	"github.com/openGemini/openGemini/engine/index/sparseindex"
 	"github.com/openGemini/openGemini/lib/fragment"
+	"github.com/openGemini/openGemini/lib/index"
 	"github.com/openGemini/openGemini/lib/logstore"
 	"github.com/openGemini/openGemini/lib/record"
 	"github.com/openGemini/openGemini/lib/rpn"
@@ -583,6 +585,59 @@ func probeMinMaxSet() {
 			res["minmax"] = "ReInit error: " + err.Error()
 		default:
 			res["minmax"] = "ReInit ok"
+		}
+	}
+	// the reader a query gets: through the registered creator (createSKFileReaders)
+	if creator, ok := sparseindex.GetSKFileReaderFactoryInstance().Find(uint32(index.MinMax)); ok {
+		if rd, e := creator.CreateSKFileReader(rpn.ConvertToRPNExpr(cond), schema, option, true); e == nil {
+			if m2, isMM := rd.(*sparseindex.MinMaxIndexReader); isMM {
+				res["minmax_factory_readfunc_nil"] = strconv.FormatBool(m2.ReadFunc == nil)
+			} else {
+				res["minmax_factory_readfunc_nil"] = fmt.Sprintf("other reader type %T", rd)
+			}
+		}
+	} else {
+		res["minmax_factory_readfunc_nil"] = "no creator"
+	}
+	// the writers: nothing is written
+	{
+		dir := path.Join(workDir(), "skprobe")
+		_ = os.MkdirAll(dir, 0700)
+		rec := record.NewRecord(record.Schemas{{Name: "n", Type: influx.Field_Type_Int}, {Name: "time", Type: influx.Field_Type_Int}}, false)
+		for i := 0; i < 4; i++ {
+			rec.Column(0).AppendInteger(int64(i))
+			rec.Column(1).AppendInteger(int64(i))
+		}
+		probeW := func(name string, attach func() error, detach func() ([][]byte, []string)) {
+			p := guard(func() {
+				e := attach()
+				d, f := detach()
+				ents, _ := os.ReadDir(dir)
+				res[name] = fmt.Sprintf("attach_err=%v detach_bufs=%d detach_files=%d files_written=%d", e != nil, len(d), len(f), len(ents))
+			})
+			if p != "" {
+				res[name] = "panic: " + p
+			}
+		}
+		mw := sparseindex.NewMinMaxWriter(dir, "m", path.Join(dir, "00000001-0001-00000001.tssp"), "", "")
+		probeW("minmax_writer", func() error { return mw.CreateAttachIndex(rec, []int{0}, []int{2, 3}) },
+			func() ([][]byte, []string) { return mw.CreateDetachIndex(rec, []int{0}, []int{2, 3}, make([][]byte, 1)) })
+		sw := sparseindex.NewSetWriter(dir, "m", path.Join(dir, "00000001-0001-00000001.tssp"), "", "")
+		probeW("set_writer", func() error { return sw.CreateAttachIndex(rec, []int{0}, []int{2, 3}) },
+			func() ([][]byte, []string) { return sw.CreateDetachIndex(rec, []int{0}, []int{2, 3}, make([][]byte, 1)) })
+		_ = os.RemoveAll(dir)
+	}
+	// which skip-index types the column-store grammar admits (real parser)
+	for _, ty := range []string{"set", "minmax", "bloomfilter"} {
+		q := "create measurement db0.rp0.m (n int64 field) WITH ENGINETYPE=COLUMNSTORE INDEXTYPE " + ty + " INDEXLIST n"
+		p := guard(func() {
+			yp := influxql.NewYyParser(influxql.NewScanner(strings.NewReader(q)), make(map[string]interface{}))
+			yp.ParseTokens()
+			_, e := yp.GetQuery()
+			res["grammar_"+ty] = strconv.FormatBool(e == nil)
+		})
+		if p != "" {
+			res["grammar_"+ty] = "panic: " + p
 		}
 	}
 	st, err := sparseindex.NewSetIndexReader(rpn.ConvertToRPNExpr(cond), schema, option, true)
